@@ -62,7 +62,7 @@ def parseParams (j : Json) : Except String Params := do
     freq := ← parseFreq (← getStr j "freq"),
     sOrd := ← getNat j "sord", sSod := ← getNat j "ssod", off := ← getInt j "off",
     datePrecision := ← getBool j "dprec",
-    interval := ← getNat j "interval",
+    interval := ← getInt j "interval",
     count := ← optNat j "count",
     untilArg := unt,
     bymonth := ← optInts j "bymonth", bymonthday := ← optInts j "bymonthday",
@@ -96,14 +96,18 @@ def evalSet (intended : Bool) (H : Int) : Nat → Json → Except String Res
     let p ← parseParams (← j.getObjVal? "p")
     let incl := (optField j "include").bind (fun v => v.getArr?.toOption) |>.getD #[]
     let excl := (optField j "exclude").bind (fun v => v.getArr?.toOption) |>.getD #[]
-    if gated p.byweekno then return (.error "gated")
-    if needsDatetime p then return (.error "needsDatetime")
+    match pluginCheck p with
+    | .error .gated => return (.error "gated")
+    | .error .badInterval => return (.error "badInterval")
+    | .error .needsDatetime => return (.error "needsDatetime")
+    | .error (.rule e) => return (.error (errName e))
+    | .ok _ => pure ()
     let r := if intended then intendedRule p else pluginRule p
     match occ r H with
     | .error e => return (.error (errName e))
     | .ok ls =>
       let base := ls.map r.inst
-      let norm := if intended then intendedDateArg p.sSod p.off else normDateArg p.sSod
+      let norm := if intended then intendedDateArg p.sSod p.off else normDateArg p.sSod p.off
       let split (a : Array Json) : Except String (Except String (List Inst × List (List Inst) × List Int)) := do
         let mut dates : List Inst := []
         let mut sets : List (List Inst) := []
